@@ -33,6 +33,12 @@ Proof. exact str_duration_range. Qed.
 Check C19_duration_range : forall (s : list N) (d : N), str_duration s = Ok d -> d <= 18446744073709551615.
 Print Assumptions C19_duration_range.
 
+(* ... and it is the manual's reading of the string (sum of number * unit), computed without bounds *)
+Theorem C19_duration_value : forall (s : list N) (d : N), str_duration s = Ok d -> dur_value s None 0 = Some d.
+Proof. exact str_duration_value. Qed.
+Check C19_duration_value : forall (s : list N) (d : N), str_duration s = Ok d -> dur_value s None 0 = Some d.
+Print Assumptions C19_duration_value.
+
 Example C19_duration_nonvacuous :
   str_duration [49;119;50;100;51;104;52;109;53;115] = Ok 788645 (* "1w2d3h4m5s" *)
   /\ str_duration [115] = Err E_durnonum /\ str_duration [] = Ok 0.
